@@ -196,6 +196,26 @@ func (it *Interp) decToBV(d DecV, w int, signed bool) (BV, bool) {
 	return r, true
 }
 
+// cannotBe: the character provably differs from c (some constant bit disagrees).
+func cannotBe(ch BV, c byte) bool {
+	if ch.Hex != nil {
+		return !((c >= '0' && c <= '9') || (c >= 'a' && c <= 'f'))
+	}
+	for i := 0; i < 8 && i < len(ch.B); i++ {
+		switch ch.B[i].op {
+		case opZero:
+			if c>>uint(i)&1 == 1 {
+				return true
+			}
+		case opOne:
+			if c>>uint(i)&1 == 0 {
+				return true
+			}
+		}
+	}
+	return false
+}
+
 // textModel: stdlib functions over text.
 func (it *Interp) textModel(st *state, name string, c *ssa.CallCommon, args []Value) (Value, bool) {
 	switch name {
@@ -298,7 +318,7 @@ func (it *Interp) textModel(st *state, name string, c *ssa.CallCommon, args []Va
 					cur = []BV{}
 					continue
 				}
-			} else if hi, okH := (BV{W: 4, B: ch.B[4:8]}).IsConst(); !(ch.Hex == nil && okH && byte(hi<<4) != sep.S[0]&0xf0) && ch.Hex == nil {
+			} else if !cannotBe(ch, sep.S[0]) {
 				return nil, false // cannot tell whether this character is the separator
 			}
 			cur = append(cur, ch)
@@ -446,8 +466,7 @@ func (it *Interp) textModel(st *state, name string, c *ssa.CallCommon, args []Va
 		// a symbolic text: decidable when no character can be the one looked for
 		if ok1 && ok2 && s.Sym && sub.Known && len(sub.S) == 1 {
 			for _, ch := range s.Chars {
-				v, isC := ch.IsConst()
-				if !(isC && ch.Hex == nil && byte(v) != sub.S[0]) {
+				if !cannotBe(ch, sub.S[0]) {
 					return it.topBV(64).signed(), true
 				}
 			}
@@ -523,8 +542,7 @@ func (it *Interp) textModel(st *state, name string, c *ssa.CallCommon, args []Va
 				}
 				continue
 			}
-			hi, okH := (BV{W: 4, B: ch.B[4:8]}).IsConst()
-			if ch.Hex == nil && !(okH && byte(hi<<4) != sub.S[0]&0xf0) {
+			if !cannotBe(ch, sub.S[0]) {
 				return nil, false // this character may or may not be the one looked for
 			}
 		}
